@@ -1,5 +1,6 @@
 #!/bin/sh
-# tools/selftest.sh [prop ...]: every recorded mutant must make its property's check exit 1 (must-fail corpus), and the
+# tools/selftest.sh [prop ...]: every recorded mutant must make its property's check exit 1 (must-fail corpus), every
+# recorded property-preserving edit (selftest/refactorings, must-pass corpus) must leave it at exit 0, and the
 # known findings must be reported as violations when the known-findings file is empty (canary).
 # Runs on scratch worktrees of /repo's HEAD under /tmp (removed afterwards), SELFTEST_JOBS in parallel, with a frozen
 # copy of the govc binary, so /repo and /verif/out are not touched and work can go on meanwhile.
@@ -15,6 +16,7 @@ list=$root/list; : > $list
 for p in $props; do
   for m in selftest/mutants/$p/*.patch; do [ -f "$m" ] && echo "$p $m" >> $list; done
   if grep -q "^finding: property=$p " known_findings.txt 2>/dev/null; then echo "$p CANARY" >> $list; fi
+  for m in selftest/refactorings/$p/*.patch; do [ -f "$m" ] && echo "$p $m" >> $list; done
 done
 runcheck() { # <prop> <extra args...>: the property's checker (frozen govc binary, or the Python front end)
   p_="$1"; shift
@@ -37,14 +39,18 @@ worker() {
     git -C $wt checkout -q -- .
     n=$(grep -c '^VIOLATION' $log)
     first=$(grep -m1 'FAILED' $log | awk '{print $NF}')
-    if [ $rc -eq 1 ]; then echo "caught   $m ($n obligations; first: $first)"; else echo "MISSED   $m (exit $rc)"; fi
+    case "$m" in
+      selftest/refactorings/*) # property-preserving edits (must-pass corpus): the check must stay quiet
+        if [ $rc -eq 0 ]; then echo "quiet    $m (property-preserving edit: exit 0)"; else echo "FALSE-ALARM $m (exit $rc; first: $first)"; fi;;
+      *) if [ $rc -eq 1 ]; then echo "caught   $m ($n obligations; first: $first)"; else echo "MISSED   $m (exit $rc)"; fi;;
+    esac
   done < $list
   git -C /repo worktree remove --force $wt
 }
 w=0; while [ $w -lt $jobs ]; do worker $w > $root/res.$w & w=$((w+1)); done; wait
 mkdir -p out; cat $root/res.* | sort -k2 > $root/all; cat $root/all
 if [ -z "$*" ]; then cp $root/all out/selftest.log; else grep -v -F -f /dev/null out/selftest.log 2>/dev/null | while read l; do keep=1; for p in $props; do case "$l" in *"mutants/$p/"*|*"of $p are"*|*"for $p "*) keep=0;; esac; done; [ $keep -eq 1 ] && echo "$l"; done > $root/old; cat $root/old $root/all | sort -k2 > out/selftest.log; fi
-fail=0; grep -q "^MISSED\|^MUTANT-DOES-NOT-APPLY" $root/all && fail=1
+fail=0; grep -q "^MISSED\|^MUTANT-DOES-NOT-APPLY\|^FALSE-ALARM" $root/all && fail=1
 total=$(grep -c "" $list); got=$(grep -c "" $root/all); [ "$total" -ne "$got" ] && { echo "TOOL-ERROR: $got results for $total entries"; fail=1; }
 rm -rf $root; git -C /repo worktree prune
 exit $fail
